@@ -114,17 +114,20 @@ func buildOverlay(p *Props, native bool) map[string][]byte {
 	ov := make(map[string][]byte)
 	for rel, hdir := range p.HarnessDirs {
 		dst := filepath.Join(repoDir, rel)
-		src := filepath.Join(verifDir, hdir)
-		ents, err := os.ReadDir(src)
-		if err != nil {
-			fatal(2, "INCONCLUSIVE: harness dir %s: %v", src, err)
-		}
-		for _, e := range ents {
-			if !strings.HasSuffix(e.Name(), ".go") {
-				continue
+		// several harness directories for one package are joined with '+'
+		for _, one := range strings.Split(hdir, "+") {
+			src := filepath.Join(verifDir, one)
+			ents, err := os.ReadDir(src)
+			if err != nil {
+				fatal(2, "INCONCLUSIVE: harness dir %s: %v", src, err)
 			}
-			b, _ := os.ReadFile(filepath.Join(src, e.Name()))
-			ov[filepath.Join(dst, "zz_verif_"+e.Name())] = b
+			for _, e := range ents {
+				if !strings.HasSuffix(e.Name(), ".go") {
+					continue
+				}
+				b, _ := os.ReadFile(filepath.Join(src, e.Name()))
+				ov[filepath.Join(dst, "zz_verif_"+e.Name())] = b
+			}
 		}
 		ov[filepath.Join(dst, "zz_verif_prelude.go")] = preludeFor(pkgNameOf(dst), native)
 	}
